@@ -49,7 +49,7 @@ def run(ctx):
     ctx.require_design_ok(r, "LivenessCache, each cache's kind follows its own capacity")
     ctx.log("A: exhaustive %d distinct states, %d generated, depth %d, %.0fs" % (r["distinct"], r["generated"], r["depth"], r["wall_s"]))
     nonvac = {}
-    for cfg, expect in (("MC_LivenessCache_asfound.cfg", ("Bounded",)),
+    for cfg, expect in (("MC_LivenessCache_asfound.cfg", ("Bounded",)), ("MC_LivenessCache_unread.cfg", ("Bounded",)),
                         ("MC_LivenessCache_bug_evict_noop.cfg", ("Bounded", "LruInSync", "EvictedNeverServed")),
                         ("MC_LivenessCache_bug_age_flip.cfg", ("HitIsFresh",)),
                         ("MC_LivenessCache_bug_wrong_cache.cfg", ("StoredWhereMeasured", "HitIsMeasuredVerdict"))):
